@@ -32,8 +32,6 @@ fn leak(s: &str) -> &'static str {
     Box::leak(s.to_string().into_boxed_str())
 }
 
-const MIPS_GP: [usize; 9] = [16, 17, 18, 19, 20, 21, 22, 23, 28];
-
 struct Regs {
     ip: u64,
     sp: u64,
@@ -42,60 +40,72 @@ struct Regs {
     gp: Vec<u64>,
 }
 
-fn build_ctx(arch: u64, r: &Regs) -> MinidumpRawContext {
-    let g = |i: usize| r.gp.get(i).copied().unwrap_or(0);
+/// (ip, sp, canonical fp, canonical lr) names of an architecture
+fn special(arch: u64) -> (&'static str, &'static str, &'static str, Option<&'static str>) {
     match arch {
-        0 => MinidumpRawContext::X86(CONTEXT_X86 {
-            eip: r.ip as u32,
-            esp: r.sp as u32,
-            ebp: r.fp as u32,
-            ebx: g(0) as u32,
-            edi: g(1) as u32,
-            esi: g(2) as u32,
-            ..Default::default()
-        }),
-        1 => MinidumpRawContext::Amd64(CONTEXT_AMD64 {
-            rip: r.ip,
-            rsp: r.sp,
-            rbp: r.fp,
-            rbx: g(0),
-            r12: g(1),
-            r13: g(2),
-            r14: g(3),
-            r15: g(4),
-            ..Default::default()
-        }),
+        0 => ("eip", "esp", "ebp", None),
+        1 => ("rip", "rsp", "rbp", None),
+        2 => ("pc", "sp", "fp", Some("lr")),
+        3 | 6 => ("pc", "sp", "fp", Some("lr")),
+        _ => ("pc", "sp", "fp", Some("ra")),
+    }
+}
+
+/// the registers of CpuContext::REGISTERS other than ip/sp/fp/lr, in REGISTERS order
+fn gp_names<C: CpuContext>(arch: u64) -> Vec<&'static str> {
+    let (ip, sp, fp, lr) = special(arch);
+    C::REGISTERS
+        .iter()
+        .copied()
+        .filter(|n| *n != ip && *n != sp && *n != fp && Some(*n) != lr)
+        .collect()
+}
+
+fn fill<C: CpuContext>(c: &mut C, arch: u64, r: &Regs)
+where
+    C::Register: TryFrom<u64>,
+{
+    let (ip, sp, fp, lr) = special(arch);
+    let conv = |v: u64| -> C::Register {
+        // 32-bit contexts: the case line is generated within range; truncate like `as u32`
+        C::Register::try_from(v).or_else(|_| C::Register::try_from(v & 0xFFFF_FFFF)).ok().expect("register value")
+    };
+    c.set_register(ip, conv(r.ip));
+    c.set_register(sp, conv(r.sp));
+    c.set_register(fp, conv(r.fp));
+    if let Some(lr) = lr {
+        c.set_register(lr, conv(r.lr));
+    }
+    for (i, n) in gp_names::<C>(arch).iter().enumerate() {
+        c.set_register(n, conv(r.gp.get(i).copied().unwrap_or(0)));
+    }
+}
+
+fn build_ctx(arch: u64, r: &Regs) -> MinidumpRawContext {
+    match arch {
+        0 => {
+            let mut c = CONTEXT_X86::default();
+            fill(&mut c, arch, r);
+            MinidumpRawContext::X86(c)
+        }
+        1 => {
+            let mut c = CONTEXT_AMD64::default();
+            fill(&mut c, arch, r);
+            MinidumpRawContext::Amd64(c)
+        }
         2 => {
             let mut c = CONTEXT_ARM::default();
-            c.iregs[15] = r.ip as u32;
-            c.iregs[13] = r.sp as u32;
-            c.iregs[11] = r.fp as u32;
-            c.iregs[14] = r.lr as u32;
-            for i in 0..7 {
-                c.iregs[4 + i] = g(i) as u32;
-            }
+            fill(&mut c, arch, r);
             MinidumpRawContext::Arm(c)
         }
         3 => {
             let mut c = CONTEXT_ARM64::default();
-            c.pc = r.ip;
-            c.sp = r.sp;
-            c.iregs[29] = r.fp;
-            c.iregs[30] = r.lr;
-            for i in 0..10 {
-                c.iregs[19 + i] = g(i);
-            }
+            fill(&mut c, arch, r);
             MinidumpRawContext::Arm64(c)
         }
         6 => {
             let mut c = CONTEXT_ARM64_OLD::default();
-            c.pc = r.ip;
-            c.sp = r.sp;
-            c.iregs[29] = r.fp;
-            c.iregs[30] = r.lr;
-            for i in 0..10 {
-                c.iregs[19 + i] = g(i);
-            }
+            fill(&mut c, arch, r);
             MinidumpRawContext::OldArm64(c)
         }
         4 | 5 => {
@@ -105,38 +115,36 @@ fn build_ctx(arch: u64, r: &Regs) -> MinidumpRawContext {
             } else {
                 ContextFlagsCpu::CONTEXT_MIPS.bits()
             };
-            c.epc = r.ip;
-            c.iregs[29] = r.sp;
-            c.iregs[30] = r.fp;
-            c.iregs[31] = r.lr;
-            for (i, &slot) in MIPS_GP.iter().enumerate() {
-                c.iregs[slot] = g(i);
-            }
+            fill(&mut c, arch, r);
             MinidumpRawContext::Mips(c)
         }
         _ => panic!("bad arch"),
     }
 }
 
-/// (fp, lr, gp...) of a frame's raw context, in the order of the case line
-fn read_ctx(raw: &MinidumpRawContext, ngp: usize) -> (u64, u64, Vec<u64>) {
-    let (fp, lr, gp): (u64, u64, Vec<u64>) = match raw {
-        MinidumpRawContext::X86(c) => (c.ebp as u64, 0, vec![c.ebx as u64, c.edi as u64, c.esi as u64]),
-        MinidumpRawContext::Amd64(c) => (c.rbp, 0, vec![c.rbx, c.r12, c.r13, c.r14, c.r15]),
-        MinidumpRawContext::Arm(c) => (
-            c.iregs[11] as u64,
-            c.iregs[14] as u64,
-            (0..7).map(|i| c.iregs[4 + i] as u64).collect(),
-        ),
-        MinidumpRawContext::Arm64(c) => (c.iregs[29], c.iregs[30], (0..10).map(|i| c.iregs[19 + i]).collect()),
-        MinidumpRawContext::OldArm64(c) => (c.iregs[29], c.iregs[30], (0..10).map(|i| c.iregs[19 + i]).collect()),
-        MinidumpRawContext::Mips(c) => (c.iregs[30], c.iregs[31], MIPS_GP.iter().map(|&s| c.iregs[s]).collect()),
-        _ => panic!("unexpected context"),
-    };
-    let mut gp = gp;
+fn read_one<C: CpuContext>(c: &C, arch: u64, ngp: usize) -> (u64, u64, Vec<u64>)
+where
+    u64: TryFrom<C::Register>,
+{
+    let (_, _, fp, lr) = special(arch);
+    let get = |n: &str| -> u64 { u64::try_from(c.get_register_always(n)).ok().expect("u64") };
+    let mut gp: Vec<u64> = gp_names::<C>(arch).iter().map(|n| get(n)).collect();
     gp.resize(ngp.max(gp.len()), 0);
     gp.truncate(ngp);
-    (fp, lr, gp)
+    (get(fp), lr.map(|l| get(l)).unwrap_or(0), gp)
+}
+
+/// (fp, lr, gp...) of a frame's raw context, in the order of the case line
+fn read_ctx(raw: &MinidumpRawContext, arch: u64, ngp: usize) -> (u64, u64, Vec<u64>) {
+    match raw {
+        MinidumpRawContext::X86(c) => read_one(c, arch, ngp),
+        MinidumpRawContext::Amd64(c) => read_one(c, arch, ngp),
+        MinidumpRawContext::Arm(c) => read_one(c, arch, ngp),
+        MinidumpRawContext::Arm64(c) => read_one(c, arch, ngp),
+        MinidumpRawContext::OldArm64(c) => read_one(c, arch, ngp),
+        MinidumpRawContext::Mips(c) => read_one(c, arch, ngp),
+        _ => panic!("unexpected context"),
+    }
 }
 
 fn run(line: &str) -> String {
@@ -168,7 +176,23 @@ fn run(line: &str) -> String {
         let sy = t.str();
         let name = format!("m{}", i);
         mods.push(MinidumpModule::new(mb, ms as u32, &name));
-        if sy != "-" {
+        if sy.starts_with("Y|") {
+            // Y|func_lo|func_size|cfi_lo|cfi_size|init rules (~ = space)|addr=delta rules|...
+            let f: Vec<&str> = sy.split('|').collect();
+            assert!(f.len() >= 6, "bad sym");
+            let n = |k: usize| -> u64 { f[k].parse().expect("num") };
+            let mut text = format!("MODULE Linux {} 000000000000000000000000000000000 {}\n", cpu_name, name);
+            if n(2) > 0 {
+                text.push_str(&format!("FUNC {:x} {:x} 0 f\n", n(1), n(2)));
+            }
+            text.push_str(&format!("STACK CFI INIT {:x} {:x} {}\n", n(3), n(4), f[5].replace('~', " ")));
+            for d in &f[6..] {
+                let (a, r) = d.split_once('=').expect("delta");
+                let a: u64 = a.parse().expect("delta addr");
+                text.push_str(&format!("STACK CFI {:x} {}\n", a, r.replace('~', " ")));
+            }
+            symbols.insert(name, text);
+        } else if sy != "-" {
             let f: Vec<&str> = sy.split(':').collect();
             assert!(f.len() == 9 && f[0] == "S", "bad sym");
             // numbers in a rule must be i64 literals: values above i64::MAX are written as
@@ -257,7 +281,7 @@ fn run(line: &str) -> String {
     ));
     let mut out = vec![];
     for f in &stack.frames {
-        let (ffp, flr, fgp) = read_ctx(&f.context.raw, ngp);
+        let (ffp, flr, fgp) = read_ctx(&f.context.raw, arch, ngp);
         let valid = match &f.context.valid {
             MinidumpContextValidity::All => "*".to_string(),
             MinidumpContextValidity::Some(s) => {
